@@ -462,6 +462,10 @@ func c01Specs(thorough bool) []mb.Msg {
 			}
 		}
 	}
+	// PGP/MIME: go-mail provides the multipart/encrypted or multipart/signed around the caller's parts
+	for pgp := 1; pgp <= 2; pgp++ {
+		specs = append(specs, mb.Msg{PGP: pgp, Parts: []mb.Part{{Type: "application/pgp-encrypted", Content: []byte("Version: 1\r\n"), Enc: "usascii"}, {Type: "application/octet-stream", Content: texts[0], Enc: "usascii"}}})
+	}
 	// 7bit (EncodingUSASCII): ASCII content must come out unencoded
 	ascii := [][]byte{[]byte("plain ascii\r\nwith a=b and =3D literal\r\n"), []byte(repeatTo("a long ascii line without any break ", 300) + "\r\n"), []byte(".dot\r\ntrailing blank \r\n"), []byte("x")}
 	for ai, a := range ascii {
